@@ -33,5 +33,5 @@ else
 fi
 # 4. shim
 if [ ! -f $V/target/shim.so ] || [ $V/sim/shim/shim.c -nt $V/target/shim.so ]; then
-  cc -O1 -g -shared -fPIC -o $V/target/shim.so $V/sim/shim/shim.c -ldl 2>$V/out/build-shim.log || { cat $V/out/build-shim.log >&2; echo "HARNESS-ERROR: shim build failed" >&2; exit 2; }
+  cc -O1 -g -fno-delete-null-pointer-checks -shared -fPIC -o $V/target/shim.so $V/sim/shim/shim.c -ldl 2>$V/out/build-shim.log || { cat $V/out/build-shim.log >&2; echo "HARNESS-ERROR: shim build failed" >&2; exit 2; }
 fi
